@@ -87,3 +87,17 @@ package clause
 //@   in clause.(Expr).Build
 //@   min-sites 1
 //@   assert not-a-valuer: !is(arg0, driver.Valuer) [C01]
+
+//@ # ---------- C15/C06: ORDER BY columns accumulate in call order, in the chain's own list ----------
+//@ # "In primary-key order" (FindInBatches, First, Last) rests on the ordering a chain asked for being the ordering
+//@ # it gets: earlier columns first, then the new ones, in a list that no sibling chain shares.
+//@ func (OrderBy).MergeClause
+//@   tags C15 C06
+//@   modifies *clause
+//@   let o = clause.Expression
+//@   let anyReorder = exists(k, 0, len(orderBy.Columns), orderBy.Columns[k].Reorder)
+//@   loop 1 invariant no-reorder-to-the-right: -1 <= i && i < len(orderBy.Columns) && forall(k, i + 1, len(orderBy.Columns), !orderBy.Columns[k].Reorder)
+//@   ensures kind: is(clause.Expression, OrderBy)
+//@   ensures first: !is(o, OrderBy) ==> clause.Expression.(OrderBy).Columns == orderBy.Columns
+//@   ensures appended-after-earlier-columns: is(o, OrderBy) && !anyReorder ==> len(clause.Expression.(OrderBy).Columns) == len(o.(OrderBy).Columns) + len(orderBy.Columns) && forall(k, 0, len(o.(OrderBy).Columns), clause.Expression.(OrderBy).Columns[k] == o.(OrderBy).Columns[k]) && forall(k, 0, len(orderBy.Columns), clause.Expression.(OrderBy).Columns[len(o.(OrderBy).Columns) + k] == orderBy.Columns[k])
+//@   ensures own-list: is(o, OrderBy) && !anyReorder && len(clause.Expression.(OrderBy).Columns) > 0 ==> fresh(clause.Expression.(OrderBy).Columns)
